@@ -583,7 +583,8 @@ def chain_cases(ctx, rng, n):
                             make_source(rng)))
             cmds.append(dict(make=r))
         for _ in range(rng.randint(1, 8)):
-            src = len(cmds) - 1 if rng.random() < 0.7 else rng.randrange(len(cmds))
+            # `src` and `other` count back from the newest array of the store (0 = newest), modulo its size
+            src = 0 if rng.random() < 0.7 else rng.randrange(len(cmds))
             cmds.append(dict(src=src, o=random_op(rng, len(cmds))))
         yield dict(op="chain", _t=dict(cmds=cmds))
 
@@ -625,6 +626,16 @@ def search(ctx):
 
 
 # ------------------------------------------------------------------------------------------ running a case on the real code
+def _resolve(back, n):
+    return n - 1 - (back % n)
+
+
+def _resolved_op(o, n):
+    if o["do"] == "arith" and "other" in o["rhs"]:
+        return dict(o, rhs=dict(other=_resolve(o["rhs"]["other"], n)))
+    return o
+
+
 def run_chain(t):
     """Runs a chain of commands over a store of real objects.  Returns (steps, store): per command the
     source's state before, its class, the outcome and whether the source was left unchanged."""
@@ -634,24 +645,23 @@ def run_chain(t):
             r, e = attempt(lambda: run_route(cmd["make"]))
             step = dict(kind="make")
         else:
-            src = store[cmd["src"]] if cmd["src"] < len(store) else None
-            if src is None:
+            if not store:
                 steps.append(dict(kind="skip"))
                 continue
+            si = _resolve(cmd["src"], len(store))
+            src = store[si]
             before = snapshot(src)
-            o = cmd["o"]
-            if o["do"] == "arith" and "other" in o["rhs"] and o["rhs"]["other"] >= len(store):
-                steps.append(dict(kind="skip"))
-                continue
+            o = _resolved_op(cmd["o"], len(store))
             r, e = attempt(lambda: run_op(src, o, store))
-            step = dict(kind="op", pre=states[cmd["src"]], cls=cls_name(src), unchanged=(snapshot(src) == before),
-                        same_object=(r is src))
+            step = dict(kind="op", pre=states[si], cls=cls_name(src), unchanged=(snapshot(src) == before),
+                        same_object=(r is src), src=si, o=o)
         if e is not None:
             step["out"] = dict(err=err_kind(e), exc=type(e).__name__)
         else:
             step["out"] = canon_result(r)
-            store.append(r)
-            states.append(step["out"]["ok"])
+            if "ok" in step["out"]:
+                store.append(r)
+                states.append(step["out"]["ok"])
         steps.append(step)
     return steps, states
 
@@ -672,11 +682,11 @@ def chain_lines(t, steps, states_at):
             h["route"] = h.pop("op")
             hist.append(h)
         else:
-            o = cmd["o"]
+            o = st["o"]
             reqs.append(op_line(o, st["pre"], st["cls"], store_states))
             h = dict(op_line(o, st["pre"], st["cls"], store_states))
-            h["do"] = h.pop("op")
-            h["src"] = cmd["src"]
+            h["do"] = "copy" if o["do"] == "copy" else h.pop("op")
+            h["src"] = st["src"]
             if o["do"] == "arith" and "other" in o["rhs"]:
                 h.pop("rhs")
                 h["other"] = o["rhs"]["other"]
@@ -894,8 +904,8 @@ def nontrivial(c, io):
 def _inv(obj):
     """len(values) == dimension >= 2 for a FixedArray-like object; None when it holds"""
     try:
-        n = len(obj.values)
-        d = obj.dimension
+        n = len(obj.values if hasattr(obj, "values") else obj._value)
+        d = obj.dimension if hasattr(obj, "dimension") else obj._dimension
     except Exception as e:
         return "cannot read len(values)/dimension: %r" % (e,)
     if not (isinstance(d, int) and n == d and d >= 2):
@@ -971,13 +981,14 @@ def _check_make(r):
     return None
 
 
-def _conv(q_from, unit_to, x):
-    """physical re-expression through the database"""
+def _phys(u_from, u_to, x):
+    """physical re-expression through the database (`UnitDatabase.Convert`); a value without unit re-expresses unchanged"""
     from barril.units import UnitDatabase
 
-    if q_from.GetUnit() == unit_to or not q_from.GetCategory():
+    if u_from == u_to or not u_from or not u_to:
         return x
-    return UnitDatabase.GetSingleton().Convert(q_from.GetCategory(), q_from.GetUnit(), unit_to, x)
+    db = UnitDatabase.GetSingleton()
+    return db.Convert(db.GetQuantityType(u_from), u_from, u_to, x)
 
 
 def _near(a, b, *mags):
@@ -998,16 +1009,15 @@ def _check_op(src, o, store):
     do = o["do"]
     if e is not None:
         size_bad = False
-        if do == "createCopy" and isinstance(o.get("values"), dict) and o.get("unit") in (None,) + UNITS_OK[:0] and o.get("category") is None:
+        if do == "createCopy" and isinstance(o.get("values"), dict) and o.get("category") is None and \
+                (o.get("unit") is None or o.get("unit") in UNITS_OK):
             size_bad = len(o["values"]["v"]) != src.dimension
         if do == "arith":
             rhs = o["rhs"]
-            if "arr" in rhs and rhs["arr"]["q"] not in (QK,):
+            if "arr" in rhs:
                 size_bad = len(rhs["arr"]["v"]) != len(src_vals)
             if "other" in rhs:
-                size_bad = len(store[rhs["other"]].values) != len(src_vals) and bool(store[rhs["other"]].GetCategory()) == bool(src.GetCategory()) or False
-            if "nd" in rhs:
-                size_bad = len(rhs["nd"]) not in (1, len(src_vals))
+                size_bad = len(store[rhs["other"]].values) != len(src_vals)
         if size_bad and not isinstance(e, ValueError):
             return dict(clause="an attempt that would break the size invariant raises ValueError", op=o, observed=repr(e)), None
         return None, None
@@ -1026,40 +1036,38 @@ def _check_op(src, o, store):
         uvu = o.get("uvu", True)
         if len(r.values) != n:
             return dict(clause="ChangingIndex returns an array of the same length", op=o, observed=len(r.values)), r
-        if "num" in v or ("tup" in v and len([x for x in v["tup"][1:] if x is not None]) == 0):
-            if r.GetQuantity() != src_q:
-                return dict(clause="ChangingIndex with a plain number keeps the quantity of the array", op=o,
-                            observed=(r.category, r.unit)), r
-        if "scalar" in v:
+        # the supplied amount and the unit it is written in
+        if "num" in v:
+            amount, a_unit, plain = dec(v["num"]), src.unit, True
+        elif "scalar" in v:
             sq = mk_qty(v["scalar"]["q"])
-            want_q = sq if uvu else src_q
-            if r.GetQuantity() != want_q:
-                return dict(clause="ChangingIndex adopts the quantity of the Scalar iff use_value_unit", op=o,
-                            observed=(r.category, r.unit)), r
-            amount = _conv(sq, r.unit, dec(v["scalar"]["v"])) if sq.GetCategory() or not r.unit else dec(v["scalar"]["v"])
-        elif "num" in v:
-            amount = dec(v["num"])
+            amount, a_unit, plain = dec(v["scalar"]["v"]), sq.GetUnit(), False
         else:
             t = list(v["tup"]) + [None] * 3
-            tu = t[1]
-            raw = dec(t[0]) if t[0] is not None else (_conv(src_q, tu, src_vals[j]) if tu is not None else src_vals[j])
-            if tu is None or not uvu:
-                # the tuple's number is in `tu` (or in the array's unit); the result is in r.unit
-                from barril.units import ObtainQuantity
-                qf = src_q if tu is None else (ObtainQuantity(tu, t[2] or (src_q.GetCategory() or None)))
-                amount = _conv(qf, r.unit, raw)
-            else:
-                amount = raw
-                if r.unit != tu:
-                    return dict(clause="ChangingIndex adopts the unit of the supplied value when use_value_unit", op=o, observed=r.unit), r
+            a_unit = t[1] if t[1] is not None else src.unit
+            amount = dec(t[0]) if t[0] is not None else _phys(src.unit, a_unit, src_vals[j])
+            plain = t[1] is None and t[2] is None
+        if plain and r.GetQuantity() != src_q:
+            return dict(clause="ChangingIndex with a plain number keeps the quantity of the array", op=o,
+                        observed=(r.category, r.unit)), r
+        if not uvu and r.GetQuantity() != src_q:
+            return dict(clause="ChangingIndex keeps the quantity of the array unless use_value_unit", op=o,
+                        observed=(r.category, r.unit)), r
+        if uvu and r.unit != a_unit:
+            return dict(clause="ChangingIndex adopts the unit of the supplied value when use_value_unit", op=o,
+                        observed=r.unit, want=a_unit), r
+        if uvu and "scalar" in v and r.GetQuantity() != sq:
+            return dict(clause="ChangingIndex adopts the quantity of the Scalar when use_value_unit", op=o,
+                        observed=(r.category, r.unit)), r
+        want = _phys(a_unit, r.unit, amount)
         got = float(r.values[j])
-        if not _near(got, amount, src_vals[j]):
+        if not _near(got, want, src_vals[j]):
             return dict(clause="ChangingIndex: the element at the index is physically the supplied amount", op=o,
-                        index=j, got=got, want=amount, unit=r.unit), r
+                        index=j, got=got, want=want, unit=r.unit), r
         for k in range(n):
             if k == j:
                 continue
-            want = _conv(src_q, r.unit, src_vals[k])
+            want = _phys(src.unit, r.unit, src_vals[k])
             if not _near(float(r.values[k]), want):
                 return dict(clause="ChangingIndex: the other elements are physically unchanged", op=o, index=k,
                             got=float(r.values[k]), want=want, unit=r.unit), r
@@ -1072,7 +1080,7 @@ def _check_op(src, o, store):
         q = mk_qty(o["quantity"]) if o.get("quantity") is not None else src_q
         if not isinstance(r, Scalar) or r.GetQuantity() != q:
             return dict(clause="IndexAsScalar returns a Scalar of the requested quantity", op=o, observed=repr(r)), None
-        want = _conv(src_q, q.GetUnit(), src_vals[j])
+        want = _phys(src.unit, q.GetUnit(), src_vals[j])
         if not _near(float(r.GetValue()), want):
             return dict(clause="IndexAsScalar(i) is the i-th amount in the requested unit", op=o, got=float(r.GetValue()), want=want), None
         return None, None
@@ -1091,12 +1099,10 @@ def _check_chain(t):
             if e is None:
                 store.append(obj)
             continue
-        if cmd["src"] >= len(store):
+        if not store:
             continue
-        o = cmd["o"]
-        if o["do"] == "arith" and "other" in o["rhs"] and o["rhs"]["other"] >= len(store):
-            continue
-        f, r = _check_op(store[cmd["src"]], o, store)
+        o = _resolved_op(cmd["o"], len(store))
+        f, r = _check_op(store[_resolve(cmd["src"], len(store))], o, store)
         if f:
             f["at"] = pos
             f["chain"] = t["cmds"][:pos + 1]
@@ -1164,13 +1170,10 @@ def shrink(case, failure, ctx):
         cmds = cmds[:failure["at"] + 1]
     best, bestf = dict(case, _t=dict(cmds=cmds)), failure
     i = len(cmds) - 2
-    while i >= 1:
+    while i >= 0:
         cand = cmds[:i] + cmds[i + 1:]
-        # dropping a command shifts store indices; only try it when later commands do not refer past it
-        ok = all(("make" in x) or (x["src"] < i and not (x["o"]["do"] == "arith" and "other" in x["o"]["rhs"])) for x in cand[i:])
-        if ok:
-            f = _check_chain(dict(cmds=cand))
-            if f:
-                cmds, best, bestf = cand, dict(case, _t=dict(cmds=cand)), f
+        f = _check_chain(dict(cmds=cand)) if cand else None
+        if f:
+            cmds, best, bestf = cand, dict(case, _t=dict(cmds=cand)), f
         i -= 1
     return best, bestf
